@@ -12,10 +12,11 @@
      oriented_conforming m every face node-set is listed once, or twice with the
                            second listing traversed the other way round
    Nothing assumes connectivity: voids and several components are covered. *)
+From Coq Require Import String.
 From Coq Require Import List ZArith Bool Arith Reals.
 Import ListNotations.
 From FV.C10.gen Require Import FaceTables.
-From FV.C10 Require Import Model Groups ProofsTables ProofsGeom ProofsSurface ProofsClosed ProofsViews ProofsFistr ProofsWf.
+From FV.C10 Require Import Model Groups ProofsTables ProofsGeom ProofsSurface ProofsClosed ProofsViews ProofsFistr ProofsWf ProofsManifold ObjText ProofsObjText.
 
 (* every translated face table (tet, tet2, pyr, prism, hex; hexprism too) is
    closed: each directed edge occurs once and its reverse once; indices are in
@@ -74,6 +75,16 @@ Proof.
   apply surface_closed. exact H.
 Qed.
 
+(* "every edge is used by two faces, in opposite directions": when no directed edge of the
+   surface is used twice (edge_manifold, a boolean predicate of the mesh; it excludes cells that
+   touch along an edge only), every directed edge of every surface face is used exactly once and
+   its reverse exactly once — i.e. by exactly one other face, traversed the other way *)
+Theorem C10_surface_manifold_edges :
+  forall m, oriented_conforming m = true -> edge_manifold m = true ->
+  forall f e, In f (surface_sorted m) -> In e (edges f) ->
+    count_edge e (surface_sorted m) = 1 /\ count_edge (swap e) (surface_sorted m) = 1.
+Proof. exact surface_manifold. Qed.
+
 (* it encloses the sum of the element volumes, for all node positions *)
 Theorem C10_surface_volume :
   forall (pos : Z -> RV3) m, oriented_conforming m = true ->
@@ -129,6 +140,19 @@ Theorem C10_obj_roundtrip :
          o_polygon := [] |}.
 Proof. intros C. exact (@obj_roundtrip C). Qed.
 
+(* the `f` lines of the OBJ file at the level of CHARACTERS: the line OBJWriter.write renders for a
+   row ("f " + " ".join(str(x + 1) ...), str(int) = decimal digits) is read back by
+   ObjData.read_elements (split at blanks, int(.)) to the same indices, for every row; and parsing
+   all `f` lines of the text gives exactly the OF lines of the token-level model write_obj *)
+Theorem C10_obj_face_line_roundtrip :
+  forall idx : list Z, parse_face_line (face_line idx) = Some idx.
+Proof. exact face_line_roundtrip. Qed.
+
+Theorem C10_obj_text_faces :
+  forall {C} (coords : list C) tri quad,
+    mapM parse_face_line (obj_text_faces tri quad) = Some (obj_faces (write_obj coords tri quad)).
+Proof. intros C. exact (@obj_text_faces_parse C). Qed.
+
 (* (element id, face number) view for tetrahedra (tet / tet2 meshes): (i, n)
    is returned exactly when element i exists and its face number n (columns
    of the translated face-number table) has the node set of a surface face *)
@@ -165,6 +189,10 @@ Definition ex_mesh : mesh :=
      m_blocks := [(Tet, [(5, [7; 19; 3; 40]); (2, [19; 7; 3; 88])]%Z)] |}.
 Example C10_hypotheses_satisfiable :
   wf_mesh ex_mesh = true /\ oriented_conforming ex_mesh = true
+  /\ edge_manifold ex_mesh = true
+  /\ face_line [3; 12; 1099511627777]%Z = "f 3 12 1099511627777"%string
+  /\ parse_face_line "f  3 12   7 "%string = Some [3; 12; 7]%Z
+  /\ parse_face_line "f 3 x"%string = None
   /\ tets_only ex_mesh = true
   /\ length (all_faces ex_mesh) = 8 /\ length (surface_sorted ex_mesh) = 6
   /\ length (surface_fistr ex_mesh) = 6.
